@@ -30,6 +30,7 @@ def run(chk):
     for sp in SPECS:
         one(chk, repo, sp)
         abnormal(chk, repo, sp)
+        hunt3(chk, repo, sp)
     # the client session hears about a lost connection through the reader the protocol holds: connection_lost() feeds it EOF, which is what
     # wakes a parked receive() with CLOSED / 1006 - so nothing but connection_lost() itself (after that) and set_parser() may drop the reader
     CPM = "aiohttp/client_proto.py"
@@ -294,6 +295,60 @@ def one(chk, repo, sp):
                 chk.ok("C13.receive", h, f"{tag} receive(): `except {'/'.join(types)}` ends the session (close / closed) before returning a terminal message")
             else:
                 chk.violation("C13.receive", h, f"except {'/'.join(types)}", "close()/_set_closed() or re-raise", f"{tag} receive() swallows an error without ending the session: the next receive() blocks on a dead connection")
+
+
+def hunt3(chk, repo, sp):
+    """Rules written after the third defect hunt (F190, F191)."""
+    from rules.C12 import _self_attrs_set
+    mod, cn, side = sp["mod"], sp["cls"], sp["side"]
+    cls = repo.cls(mod, cn)
+    close, recv = cls.methods["close"], cls.methods["receive"]
+    tag = f"[{side}]"
+    # ---- C13.wake: a receive() woken by close() leaves the handshake to close() ------------------------------------------------------------
+    # close() in another task breaks the parked receive() with WS_CLOSING_MESSAGE and goes on (send CLOSE, wait for the peer's).  Where close()
+    # has a short cut on a flag after that wake-up (`if self._closing: close transport, return`), the woken receive() must not raise that
+    # flag on behalf of the close() that is running: the peer's CLOSE would never be waited for.
+    wake = [c for c, _b in K.exprs(close, "$R.feed_data(WS_CLOSING_MESSAGE)")]
+    if not wake:
+        chk.analysis_error(f"C13.wake: {cn}.close() does not wake a parked receive() with WS_CLOSING_MESSAGE")
+    else:
+        reads = [a for a in prog.awaits_in(close.node) if isinstance(a.value, ast.Call) and norm.raw(a.value.func).endswith("reader.read")]
+        shortcuts = set()
+        for r in [r for r in ast.walk(close.node) if isinstance(r, ast.Return) and wake[0].lineno < r.lineno < (reads[0].lineno if reads else 10**9)]:
+            for l in PC.units(PC.pc(r, raw=True)):
+                if l.pos and l.text.startswith("self._") and l.text.isidentifier() is False and "(" not in l.text and " " not in l.text:
+                    shortcuts.add(l.text.split(".", 1)[1])
+        br = [i for i in ast.walk(recv.node) if isinstance(i, ast.If) and norm.raw(i.test) == "msg.type is WSMsgType.CLOSING"]
+        if not br:
+            chk.analysis_error(f"C13.wake: {cn}.receive() has no branch for WSMsgType.CLOSING")
+        else:
+            bad = []
+            # only a test made after the wake-up counts (self._closed was also looked at before the read, an await ago)
+            top = br[0]
+            while isinstance(getattr(top, "parent", None), ast.If) and top in top.parent.orelse:
+                top = top.parent
+            for st in br[0].body:
+                for sub in ast.walk(st):
+                    if isinstance(sub, ast.stmt) and not isinstance(sub, (ast.If,)) and (_self_attrs_set(cls, [sub]) & shortcuts):
+                        if not any(l.text == "self._closed" and not l.pos for l in PC.units(PC.pc(sub, stop=top, raw=True))):
+                            bad.append(sub)
+            if not bad:
+                chk.ok("C13.wake", br[0], f"{tag} receive(): woken by close() (`_closed` already latched) it does not set {sorted(shortcuts) or 'any flag close() short-cuts on'}")
+            for sub in bad:
+                chk.violation("C13.wake", sub, K.short(sub), "if not self._closed: ...",
+                              f"{tag} close() called while another task is parked in receive(): the woken receive() sets {sorted(_self_attrs_set(cls, [sub]) & shortcuts)}, close() then takes its `already closing` short cut - the transport is closed right after our CLOSE "
+                              "without waiting for the peer's, and close_code reports 1000 for a handshake that never completed")
+    # ---- C13.timeout: the automatic PONG is sent inside receive() and bounded like the read -----------------------------------------------------
+    pongs = [a for a in prog.awaits_in(recv.node) if isinstance(a.value, ast.Call) and norm.raw(a.value.func) == "self.pong"]
+    if not pongs:
+        chk.analysis_error(f"C13.timeout: the auto-pong of {cn}.receive() was not found")
+    for a in pongs:
+        scoped = [w for w in prog.enclosing(a, (ast.AsyncWith,)) if any(M.match(M.compile_pat("async_timeout.timeout($T)"), it.context_expr) is not None for it in w.items)]
+        if scoped:
+            chk.ok("C13.timeout", a, f"{tag} receive(): the automatic PONG is under `{norm.raw(scoped[-1].items[0].context_expr)}`")
+        else:
+            chk.violation("C13.timeout", a, K.short(a), "async with async_timeout.timeout(receive_timeout or None)",
+                          f"{tag} receive(timeout=...) answers a PING with an unbounded send: a peer that pings and stops reading (write buffer over the limit) parks receive() in the drain helper for ever, past its receive timeout")
 
 
 def abnormal(chk, repo, sp):
